@@ -10,6 +10,10 @@ const hL = "\xffL"
 const hD = "\xffD"
 const hH = "\xffH"
 
+// hT: space, tab or backslash; hY: space or the letter x
+const hT = "\xfe \t\\\xfe"
+const hY = "\xfe x\xfe"
+
 var tlTemplates = []string{
 	// ---- inline (0..)
 	"*" + hA + "*" + hA,                        // 0
@@ -113,6 +117,24 @@ var tlTemplates = []string{
 	"-     " + hA + "\n\n- b",                   // 92 item starting with indented code, blank line, next item
 	"- [a]: b\n\n[" + hA + "]",                  // 93 definition inside a top-level list item
 	"> a <b\n> " + hA + "=\"d\">x",               // 94 multi-line inline tag inside a block quote
+	// ---- fourth campaign (95..): families, not witnesses
+	"[" + hA + hA + "]: /u",                       // 95 definition whose label is two free bytes
+	"> [" + hA + hA + "]: /u\n> t",                // 96 the same inside a block quote, followed by text
+	"- # a `" + hA + "`\n  " + hA,                 // 97 heading ending in a code span inside a list item
+	"> # a *" + hA + "*\n> " + hA,                 // 98 heading ending in emphasis inside a block quote
+	"- # a &" + hA + "t;\n  c",                    // 99 heading ending in a character reference
+	"> # a\\" + hA + "\n> c",                     // 100 heading ending in a backslash escape
+	"- # <a:" + hA + ">\n  c",                     // 101 heading ending in an autolink
+	"a" + hT + hT + hT + hT + "\nb",               // 102 trailing spaces / tabs / backslashes before a line ending
+	"> a" + hT + hT + hT + "\n> b",                // 103 the same inside a block quote
+	"\xfe*_\xfea\xfe*_\xfe\nb",                   // 104 delimiter run ending a line
+	"a \xfe*_\xfe\nb\xfe*_\xfe",                  // 105 delimiter run after a space at the end of a line
+	"a <" + hL + hL + ":" + hA + ">",              // 106 URI autolink as the last bytes of the input
+	"a <b@c." + hA + ">",                          // 107 e-mail autolink as the last bytes of the input
+	"```\na\n" + hY + hY + hY + hY + "\nb\n```",   // 108 whitespace-only line inside fenced code
+	"    a\n    " + hY + hY + "\n    b",           // 109 whitespace-only line inside indented code
+	"~~~ t\n" + hY + hY + "\n~~~",                 // 110 whitespace-only line as the only content
+	"- a" + hT + hT + "\n  b",                     // 111 hard break candidates inside a list item
 }
 
 // tlQuick lists the templates with at most two holes... (kept for reference);
